@@ -43,7 +43,7 @@ def gen_model(rng):
             if h[:7] not in used:
                 used.add(h[:7])
                 break
-        commits.append({'hash': h, 'boundary': rng.random() < 0.15, 'author': rng.choice(AUTHORS),
+        commits.append({'hash': h, 'boundary': rng.random() < 0.15, 'author': rng.choice(AUTHORS), 'mark': rng.choice([''] * 9 + ['?', '*']),
                         'time': '20%02d-%02d-%02d %02d:%02d:%02d' % (rng.randint(10, 23), rng.randint(1, 12), rng.randint(1, 28),
                                                                      rng.randint(0, 23), rng.randint(0, 59), rng.randint(0, 59)),
                         'tz': rng.choice(corpus.ZONES)})
@@ -74,6 +74,9 @@ def gen_model(rng):
     lines = []
     for i, ci in enumerate(seq):
         code = gen.rand_text(rng, 50)
+        if rng.random() < 0.06:
+            # code that reads like the end of blame metadata
+            code = rng.choice(['log("at 2021-02-03 04:05:06 +0000 99) done")', 'x (y 2019-12-31 23:59:59 -0800 7) z', '// see 2020-01-01 00:00:00 +0000 1)']) + ' ' + code[:12]
         lines.append({'commit': commits[ci], 'lineno': start + i, 'code': code, 'file': commits[ci]['file'].ljust(fw) if with_file else None})
     return lines, pattern
 
@@ -162,7 +165,7 @@ def run_item(item):
     for i, (l, r) in enumerate(zip(model, rws)):
         t = r.text()
         cm = l['commit']
-        shown_hash = cm.get('raw_hash') or (('^' + cm['hash'][:7]) if cm['boundary'] else cm['hash'])
+        shown_hash = cm.get('raw_hash') or corpus.shown_blame_hash(cm)
         tstr = cm['time'][:16] + ((' ' + cm['tz']) if with_zone else '')
         key = (shown_hash, cm['author'], cm['time'], cm['tz'])
         keys.append(key)
